@@ -219,6 +219,7 @@ class Engine:
         self._vars_cache = {}
         self._keep = []
         self.def_ids = set()
+        self.branch_ids = set()      # conditions assumed because of a branch taken (not harness assumptions)
         self.errvars = []       # rounded-mode error variables (name, bound)
         self.side = []          # global side constraints (atoms characterisations) as (z3 bool)
         self.path_results = []
@@ -853,8 +854,10 @@ class Engine:
         self._keep.append(e)
         return e
 
-    def slice_pc(self, pc, goal_exprs):
-        """cone of influence: conjuncts of pc (and side constraints) sharing variables with goal"""
+    def slice_pc(self, pc, goal_exprs, strict=False):
+        """cone of influence: conjuncts of pc (and side constraints) sharing variables with goal.
+        strict: a branch condition is kept only when all its variables are already relevant (it never pulls new variables in) -
+        fewer hypotheses, so only `unsat` answers of a strict query are used"""
         allc = list(pc) + self.side
         infos = [self.expr_info(c) for c in allc]
         vs = set()
@@ -870,6 +873,7 @@ class Engine:
         nside = len(pc)
         fresh = [frozenset(v for v in cv if "!" in v) for cv, _ in infos]
         isdef = [(i >= nside) or (c.get_id() in self.def_ids) for i, c in enumerate(allc)]
+        isbranch = [strict and (c.get_id() in self.branch_ids) for c in allc]
         while changed:
             changed = False
             for i, (cv, _) in enumerate(infos):
@@ -877,6 +881,8 @@ class Engine:
                     continue
                 if fresh[i] and isdef[i]:
                     hit = bool(fresh[i] & vs)
+                elif isbranch[i]:
+                    hit = bool(cv) and cv <= vs
                 else:
                     # branch conditions and assumptions restrict the inputs even when they mention atoms
                     hit = bool(cv & vs) or not cv
@@ -1223,6 +1229,10 @@ class Engine:
             self.goto(st, fr, ins.x[1])
             return
         # both possible (or unknown): fork  (sharded runs keep only their side at the first forks)
+        nce = z3.Not(ce)
+        self.branch_ids.add(ce.get_id())
+        self.branch_ids.add(nce.get_id())
+        self._keep.append(nce)
         sh = st.user.get("shard", self.shard)
         if sh is not None and sh[1] > 1 and self.shard_forks:
             i, n = sh
@@ -1233,13 +1243,13 @@ class Engine:
                 st.trace.append(fr.block.name)
                 self.goto(st, fr, ins.x[0])
             else:
-                st.assume(z3.Not(ce))
+                st.assume(nce)
                 st.trace.append("!" + fr.block.name)
                 self.goto(st, fr, ins.x[1])
             return
         self.stats["forks"] += 1
         s2 = st.clone()
-        s2.assume(z3.Not(ce))
+        s2.assume(nce)
         s2.trace.append("!" + fr.block.name)
         self.goto(s2, s2.frames[-1], ins.x[1])
         work.append(s2)
